@@ -5,7 +5,8 @@ ORDER = []
 
 
 class Loop:
-    def __init__(self, over=None, invariant=(), modifies=None, kind=None, hints=()):
+    def __init__(self, over=None, invariant=(), modifies=None, kind=None, hints=(), lemmas=()):
+        self.lemmas = list(lemmas)        # intermediate assertions proved at the end of the body, then available to the invariant proofs
         self.hints = list(hints)          # ground spec expressions evaluated after the body (seed instances of opaque functions)
         self.over = over              # source text of the iterable / while test the invariant was written for
         self.invariant = list(invariant)
